@@ -202,13 +202,31 @@ class Contract:
                 if k != "old":
                     det_terms.extend(encode_arg(st, vals[k]))
             if self_obj is not None:
-                for _k, v in sorted(self_obj.fields.items()):
-                    try:
-                        det_terms.extend(encode_arg(st, v))
-                    except Unsupported:
-                        continue
-                    if isinstance(v, V.SOpaque):
-                        det_terms.append(z3.IntVal(st.ghost.get("ver", {}).get(str(v.e), 0)))
+                # `deterministic_reads` (optional): the receiver fields the function reads -- its value is a function
+                # of those only (to be backed by a static check of the body, see contracts.C09_pile.reads_only)
+                reads = getattr(self, "deterministic_reads", None)
+
+                def field_terms(obj, only=None):
+                    for _k, v in sorted(obj.fields.items()):
+                        if only is not None and _k not in only:
+                            continue
+                        if isinstance(v, SObj) and reads is not None:
+                            field_terms(v)  # nested object (the contents list): its scalar fields and lengths
+                            continue
+                        if isinstance(v, (LRef, Q.SSeq)) and reads is not None:
+                            det_terms.append(V._z(Q.seq_len(v)))
+                            continue
+                        try:
+                            det_terms.extend(encode_arg(st, v))
+                        except Unsupported:
+                            continue
+                        if isinstance(v, V.SOpaque):
+                            det_terms.append(z3.IntVal(st.ghost.get("ver", {}).get(str(v.e), 0)))
+
+                field_terms(self_obj, reads)
+                if reads is not None:
+                    # ... and of the state versions of the opaque children it may consult (all of them)
+                    det_terms.append(z3.IntVal(V.atom_code(repr(sorted(st.ghost.get("ver", {}).items())))))
         old = self_obj.snapshot() if self_obj is not None else None
         saved_trace = None
         for name in getattr(self, "modifies_args", ()):
@@ -343,6 +361,8 @@ class VerifyTask:
         self.config = config or Config()
         if c.max_paths:
             self.config.max_paths = c.max_paths
+        if getattr(c, "qf_branching", False):
+            self.config.qf_branching = True  # the Config instance is per task
         if getattr(c, "branch_timeout_ms", None):
             # feasibility checks at branches: an `unknown` answer keeps the branch (sound), so a contract whose
             # path conditions carry quantifiers may ask for a shorter budget per check
